@@ -18,22 +18,22 @@ claim("C08", "proof",
       "DESIGN.md 5/C08")
 
 claim("C01", "other",
-      "Decides the clause 'the error is the very one the fetcher or operator returned' completely (value-origin analysis of every error reaching a return of the evaluation entry points), plus structural necessary conditions of the semantics: errors are tested before values are used, name resolution order const > variable > undefined variable, node-kind invariants at every writer, every kind has a handler in every dispatch, flag bit groups disjoint, and/or polarity tables agree for every alias. Does not decide the value semantics of the stack machine (jump/stack tables are run-time data).",
+      "Decides the clause 'the error is the very one the fetcher or operator returned' completely (value-origin analysis of every error reaching a return of the evaluation entry points), plus structural necessary conditions of the semantics: errors are tested before values are used, name resolution order const > variable > undefined variable, node-kind invariants at every writer, every kind has a handler in every dispatch, flag bit groups disjoint, and/or polarity tables agree for every alias. Does not decide the value semantics of the stack machine (jump/stack tables are run-time data). Added: per arm of Eval's main loop the pushed value is exactly the literal / the fetch of that node / result #0 of the node's own operator, and the operand vector is the popped stack region in source order (R-STEPRES, R-STEPARGS). Shape of the compile-time tables: stack-height recurrence uses one adjusted predecessor in every arm and the evaluator's own per-kind deltas (R-STACKREC); short-circuit table stores are gated only by the parent and the position, never by the node's own kind, climbing is justified by (ancestor.flag & flag) == flag, loop directions (R-SCFLAGS, R-SCCLIMB); every site agrees that a fast operator is followed by two inlined operands (R-FASTLAYOUT); marker comparisons use the stored dynamic type (R-KWTYPE). Still not decided: the contents of scIdx for every tree shape, hence value equality for all programs.",
       "SSA value-origin analysis + gate/dominance rules + writer census of node fields + table extraction",
       "DESIGN.md 5/C01")
 
 claim("C03", "other",
-      "Decides where the observable effects of evaluation can occur: census of every VariableFetcher.Get and operator call in Eval with the arm (node kind) that dominates it, the node it addresses relative to the single loop counter, exclusivity and at-most-counts per step, operand order into the fast operator, the gates of the cond jump and of the short-circuit jump, and the if/fi closures. Does not decide that the compile-time jump targets skip exactly the decided operands.",
+      "Decides where the observable effects of evaluation can occur: census of every VariableFetcher.Get and operator call in Eval with the arm (node kind) that dominates it, the node it addresses relative to the single loop counter, exclusivity and at-most-counts per step, operand order into the fast operator, the gates of the cond jump and of the short-circuit jump, and the if/fi closures. Does not decide that the compile-time jump targets skip exactly the decided operands. Added: per arm of Eval's main loop the pushed value is exactly the literal / the fetch of that node / result #0 of the node's own operator, and the operand vector is the popped stack region in source order (R-STEPRES, R-STEPARGS). Every child of an and/or node gets polarity flag and jump target whatever its own kind (R-SCFLAGS, R-SCCLIMB, R-FASTLAYOUT, R-KWTYPE).",
       "call-site census on SSA with edge-dominance facts over node-kind tests + loop-shape recovery",
       "DESIGN.md 5/C03")
 
 claim("C04", "other",
-      "Decides the three gates a definite TryEval answer rests on: operators never see a DNE operand (the only operator application in TryEval's own code is behind contains(params, DNE) == false, plus the cond arm), shortcut polarity of the operator proxy, fetch only under Cached == true for the same keys; and that the polarity tables used by the climbing loop agree with the compiler's. Does not decide the upward propagation itself.",
+      "Decides the three gates a definite TryEval answer rests on: operators never see a DNE operand (the only operator application in TryEval's own code is behind contains(params, DNE) == false, plus the cond arm), shortcut polarity of the operator proxy, fetch only under Cached == true for the same keys; and that the polarity tables used by the climbing loop agree with the compiler's. Does not decide the upward propagation itself. Added: per arm of TryEval's main loop the pushed value is exactly the literal / fetchVariableValueProxy(curt) / executeOperatorProxy(curt, operands); operands are built as in Eval, fast-arm slot k is getNodeValueProxy(nodes[i+1+k]) and nothing else (R-STEPRES, R-STEPARGS).",
       "call-site census + edge-dominance facts (with phi-&& expansion) + table extraction",
       "DESIGN.md 5/C04")
 
 claim("C05", "other",
-      "Decides the ordering and 'DNE is not an error' clauses: shortcuts are reached independently of DNE poisoning, the not-cached edge yields (DNE, nil), TryEvalBool maps DNE to ErrDNE before asserting bool, the fast-operator arm goes through both proxies. Does not decide Kleene completeness of the propagation.",
+      "Decides the ordering and 'DNE is not an error' clauses: shortcuts are reached independently of DNE poisoning, the not-cached edge yields (DNE, nil), TryEvalBool maps DNE to ErrDNE before asserting bool, the fast-operator arm goes through both proxies. Does not decide Kleene completeness of the propagation. Added: per arm of TryEval's main loop the pushed value is exactly the literal / fetchVariableValueProxy(curt) / executeOperatorProxy(curt, operands); operands are built as in Eval, fast-arm slot k is getNodeValueProxy(nodes[i+1+k]) and nothing else (R-STEPRES, R-STEPARGS).",
       "edge-dominance facts over the proxy functions + SSA shape rules",
       "DESIGN.md 5/C05")
 
@@ -48,7 +48,7 @@ claim("C16", "other",
       "DESIGN.md 5/C16")
 
 claim("C09", "other",
-      "Decides placement and width of the capacity checks: check(ast) with its error tested dominates buildExpr and no tree-rewriting call can run between them; the limits check enforces fit every narrower integer type a children count or program length/index is converted to; writers of Expr.nodes are enumerated and any growth after check (event nodes) is followed by a final length test before Compile returns; no narrow signed arithmetic on lengths; stack allocation classes are large enough and agree between Eval and TryEval. Does not decide that calAndSetStackSize computes a true upper bound, nor results at the limits.",
+      "Decides placement and width of the capacity checks: check(ast) with its error tested dominates buildExpr and no tree-rewriting call can run between them; the limits check enforces fit every narrower integer type a children count or program length/index is converted to; writers of Expr.nodes are enumerated and any growth after check (event nodes) is followed by a final length test before Compile returns; no narrow signed arithmetic on lengths; stack allocation classes are large enough and agree between Eval and TryEval. Does not decide that calAndSetStackSize computes a true upper bound, nor results at the limits. Added: R-STACKMAX (running maximum over every node) and R-STACKREC (recurrence shape and per-kind deltas equal to the evaluator's stack effects).",
       "must-pass-through / call-order rules on the CFG + narrowing-conversion census matched to extracted limits + writer census + sibling agreement",
       "DESIGN.md 5/C09")
 
@@ -58,12 +58,12 @@ claim("C11", "other",
       "DESIGN.md 5/C11")
 
 claim("C12", "other",
-      "Decides non-interference and payload clauses: every container-typed component of a sent Event is allocated in the sending function and never written after the send (no aliasing of engine buffers), the operator wrapper is a transparent forwarder that reports the call's own result/error, the event arm of Eval/TryEval is a no-op on every loop-carried variable, Dump skips event nodes, and instrumentation is installed only under ReportEvent/Debug. Does not decide the remapped jump indices of event mode.",
+      "Decides non-interference and payload clauses: every container-typed component of a sent Event is allocated in the sending function and never written after the send (no aliasing of engine buffers), the operator wrapper is a transparent forwarder that reports the call's own result/error, the event arm of Eval/TryEval is a no-op on every loop-carried variable, Dump skips event nodes, and instrumentation is installed only under ReportEvent/Debug. Does not decide the remapped jump indices of event mode. Added: R-EVREMAP — the event-mode node array and parent table are rebuilt entry by entry in step, every appended node records its position in the table keyed by its original index, and the relabelling loop reads the right table under the -1 guards.",
       "SSA value-root analysis of send payloads + closure shape rule + phi inspection on the loop latch + edge-dominance facts",
       "DESIGN.md 5/C12")
 
 claim("C13", "other",
-      "Decides the literal-codec clause (Dump escapes iff the lexer unescapes; today neither), that every constant type the parser creates has a printing case in a re-readable form (quotes, parenthesised space-separated lists, base-10 integers), that Dump's selection of `if` children agrees with the compiler's emission order, and that event nodes are skipped. Does not decide equivalence of the recompiled program.",
+      "Decides the literal-codec clause (Dump escapes iff the lexer unescapes; today neither), that every constant type the parser creates has a printing case in a re-readable form (quotes, parenthesised space-separated lists, base-10 integers), that Dump's selection of `if` children agrees with the compiler's emission order, and that event nodes are skipped. Does not decide equivalence of the recompiled program. Added: R-DUMPVERBATIM (rendered text is never re-indented) and R-EVREMAP (event-mode parent table is an exact relabelling, so Dump rebuilds the same tree in event mode).",
       "callee census over the lex and Dump closures + type-switch/print-grammar extraction + sibling agreement on child order",
       "DESIGN.md 5/C13")
 
@@ -73,7 +73,7 @@ claim("C14", "other",
       "DESIGN.md 5/C14")
 
 claim("C15", "other",
-      "Decides the operator-table clause (documented precedence levels and arities read from the getInfixOpInfo switch, coverage of every symbolic operator of the operator table, aliases on one level) and the associativity rule (reduction stops only for a strictly tighter operator; comparePrecedence direction; operands popped last to first). Does not decide the shunting-yard algorithm as a whole.",
+      "Decides the operator-table clause (documented precedence levels and arities read from the getInfixOpInfo switch, coverage of every symbolic operator of the operator table, aliases on one level) and the associativity rule (reduction stops only for a strictly tighter operator; comparePrecedence direction; operands popped last to first). Does not decide the shunting-yard algorithm as a whole. Added: R-REDUCEGATE — an operator is built only on the losing edge of the precedence comparison against the arriving token, the matched parenthesis ends the reduction, and an arriving prefix operator reduces nothing (the tree as found violated the last clause: D13, repaired).",
       "switch-table extraction from typed syntax + SSA term recovery and loop-exit condition rule",
       "DESIGN.md 5/C15")
 
